@@ -1018,3 +1018,92 @@ def rule_regexp_argument_refused(ctx, rep, rid: str) -> None:
             rep.bad(rid, key, f"{f.qual} can return (line {late[0].line}) without having tested its argument for a regular expression", f"{f.module.rel}:{late[0].line}")
         else:
             rep.ok(rid, key)
+
+
+# ---- the callbacks of the array iteration methods --------------------------------------------------------------
+
+_ITERATION_METHODS = ("forEach", "map", "filter", "find", "findIndex", "some", "every")
+_REDUCERS = ("reduce", "reduceRight")
+
+
+def rule_iteration_callbacks(ctx, rep, rid: str) -> None:
+    """forEach/map/filter/find/findIndex/some/every(callback, thisArg): the callback runs with thisArg as its this, and a
+    callback that is not callable is a TypeError before any element is visited.  reduce/reduceRight(callback,
+    initialValue): whether there is an initial value is decided by the NUMBER of arguments - reduce(f, undefined)
+    starts from undefined."""
+    rep.rule(rid, "the array iteration methods hand their second argument to the callback as its this (third argument of the call helper, derived from args[1]) and reach a TypeError for a non-callable callback on every path that returns without calling it; reduce and reduceRight decide 'no initial value' by the number of arguments, never by comparing the value with undefined", floor=9)
+    vmcls = ctx.facts.vm_dispatcher()[0].cls
+    builder = ctx.tree.find_method(vmcls, ctx.facts.family_methods().get("_make_array_method", "_make_array_method"))
+    if builder is None:
+        raise AnalysisError(f"{rid}: the Array method table builder was not found")
+    table = {}
+    for d in builder.own_nodes():
+        if isinstance(d, ast.Dict):
+            for k, v in zip(d.keys, d.values):
+                if isinstance(k, ast.Constant) and isinstance(v, ast.Name):
+                    table[k.value] = v.id
+    closures = {g.name: g for g in ctx.tree.funcs if g.parent is builder and not isinstance(g.node, ast.Lambda)}
+
+    def helper_facts(f):
+        """(names bound to the this-argument, does a helper called at the top raise TypeError for non-callables?)"""
+        this_names, refuses = set(), False
+        for a in f.own_nodes():
+            if isinstance(a, ast.Assign):
+                v = a.value
+                if "args[1]" in norm(v) and len(a.targets) == 1 and isinstance(a.targets[0], ast.Name):
+                    this_names.add(a.targets[0].id)
+                if isinstance(v, ast.Call) and isinstance(v.func, ast.Name) and v.func.id in closures and isinstance(a.targets[0], ast.Tuple):
+                    h = closures[v.func.id]
+                    rets = [r.value for r in h.own_nodes() if isinstance(r, ast.Return) and isinstance(r.value, ast.Tuple)]
+                    for r in rets:
+                        for i, e in enumerate(r.elts):
+                            if "args[1]" in norm(e) and i < len(a.targets[0].elts) and isinstance(a.targets[0].elts[i], ast.Name):
+                                this_names.add(a.targets[0].elts[i].id)
+                    if any(isinstance(r, ast.Raise) and r.exc is not None and "TypeError" in norm(r.exc) for r in h.own_nodes()):
+                        refuses = True
+        if any(isinstance(r, ast.Raise) and r.exc is not None and "TypeError" in norm(r.exc) and any("callable" in norm(t) or "JSFunction" in norm(t) for t, _ in _guards(r, f)) for r in f.own_nodes()):
+            refuses = True
+        return this_names, refuses
+
+    def _guards(n, f):
+        from ..util import guards_of
+
+        return guards_of(n, f.node)
+
+    n = 0
+    for js in _ITERATION_METHODS:
+        f = closures.get(table.get(js, ""))
+        if f is None:
+            continue
+        n += 1
+        this_names, refuses = helper_facts(f)
+        calls = [c for c in f.own_nodes() if isinstance(c, ast.Call) and isinstance(c.func, ast.Attribute) and c.func.attr == "_call_callback"]
+        key = f"_make_array_method.{js}:this-argument"
+        if calls and all(len(c.args) >= 3 and (norm(c.args[2]) in this_names or "args[1]" in norm(c.args[2])) for c in calls):
+            rep.ok(rid, key)
+        else:
+            rep.bad(rid, key, f"{f.qual} calls the callback without the method's second argument as its this: `[1].{js}(function(){{ return this.k }}, {{k: 5}})` runs the callback with this undefined", f.loc)
+        key = f"_make_array_method.{js}:callback-refused"
+        if refuses:
+            rep.ok(rid, key)
+        else:
+            rep.bad(rid, key, f"{f.qual} returns quietly when the callback is missing or not callable: `[1,2].{js}()` is a TypeError in ECMAScript, before any element is visited", f.loc)
+    for js in _REDUCERS:
+        f = closures.get(table.get(js, ""))
+        if f is None:
+            continue
+        n += 1
+        key = f"_make_array_method.{js}:initial-value-by-count"
+        seeds = [t for t in f.own_nodes() if isinstance(t, ast.If) and any(isinstance(r, ast.Raise) and "initial value" in norm(r.exc or r) for r in ast.walk(t))]
+        by_value = [t for t in seeds if "is UNDEFINED" in norm(t.test) or "== UNDEFINED" in norm(t.test)]
+        by_count = False
+        for t in seeds:
+            names = {x.id for x in ast.walk(t.test) if isinstance(x, ast.Name)}
+            if "len(args)" in norm(t.test) or any(isinstance(a, ast.Assign) and len(a.targets) == 1 and isinstance(a.targets[0], ast.Name) and a.targets[0].id in names and "len(args)" in norm(a.value) and "UNDEFINED" not in norm(a.value) for a in f.own_nodes()):
+                by_count = True
+        if by_value or not by_count:
+            rep.bad(rid, key, f"{f.qual} decides that there is no initial value by looking at the value (`{short(seeds[0].test, 40) if seeds else '?'}`): `[1,2,3].{js}(f, undefined)` must start from undefined (the number of arguments decides), and `[].{js}(f, undefined)` is undefined, not a TypeError", f.loc)
+        else:
+            rep.ok(rid, key)
+    if n < 9:
+        raise AnalysisError(f"{rid}: only {n} of the nine iteration methods found in the Array method table")
